@@ -544,8 +544,8 @@ def Engine.closeRequeueStage (e9 : Engine) : Engine × Res :=
   let (e13, rd) := e12.failAll rejU "OfflineQueuePolicyFailed"
   ({ e13 with userQ := e13.userQ ++ keepU }, rd)
 
-/-- `handle_network_event_connection_closed` -/
-def Engine.handleClosed (e : Engine) : Engine × Res :=
+/-- `handle_network_event_connection_closed`, from the point where the timers and the timeout records are dropped -/
+def Engine.handleClosedCore (e : Engine) : Engine × Res :=
   if e.state == .disconnected then (e, .err "InternalStateError")
   else
     let e0 := { e with state := .disconnected, connackDeadline := none, nextPing := none, pingDeadline := none, timeouts := [] }
@@ -1116,6 +1116,16 @@ def Engine.processAckTimeouts : Nat → Engine → Engine × Res
         let (e3, r3) := Engine.processAckTimeouts fuel e2
         (e3, r.fold r3)
       else (e, .ok)
+
+/-- `handle_network_event_connection_closed`: ack timeouts that have already elapsed are applied before the records are
+    dropped - an operation that has waited longer than its timeout fails with the ack-timeout error, it is not carried to the
+    next connection with a fresh clock because no service call ran between its deadline and the close -/
+def Engine.handleClosed (e : Engine) : Engine × Res :=
+  if e.state == .disconnected then (e, .err "InternalStateError")
+  else
+    let (ea, ra) := Engine.processAckTimeouts (e.timeouts.length + 1) e
+    let (eb, rb) := ea.handleClosedCore
+    (eb, (ignoreUserDisconnect ra).fold rb)
 
 /-- `service`, the work by state -/
 def Engine.serviceCore (e : Engine) (cap prefill : Nat) : Engine × Res :=
